@@ -58,6 +58,49 @@ pub fn progtest(args: &[String]) -> i32 {
     0
 }
 
+/// `dlv progtest06 <n> [show] [defects]`: the targeted C06/C07 generator: share of error-free programs, tags.
+pub fn progtest06(args: &[String]) -> i32 {
+    let n: usize = args.first().and_then(|s| s.parse().ok()).unwrap_or(200);
+    let show = args.iter().any(|a| a == "show");
+    let defects = args.iter().any(|a| a == "defects");
+    let mut model = Model::spawn();
+    let mut rng = Rng::new(1);
+    let (mut ok, mut bad) = (0, 0);
+    let mut tags_total: std::collections::BTreeMap<&'static str, usize> = Default::default();
+    for i in 0..n {
+        let opts = crate::progen_c06::Opts { f9: defects, many_elifs: defects, idiv_meta: defects };
+        let (code, tags) = crate::progen_c06::generate(&mut rng.fork(), opts, 8);
+        let block = match exec::parse(&code) {
+            Ok(b) => b,
+            Err(e) => {
+                bad += 1;
+                if bad <= 5 {
+                    println!("--- PARSE FAILURE {}\n{}\n{}", i, code, e);
+                }
+                continue;
+            }
+        };
+        let outcome = exec::run_block(&mut model, 200, &block);
+        if outcome.starts_with("(ok ") {
+            ok += 1;
+            for t in tags {
+                *tags_total.entry(t).or_default() += 1;
+            }
+            if show && i < 2 {
+                println!("--- program {}\n{}\n=> {}", i, code, outcome);
+            }
+        } else {
+            bad += 1;
+            if bad <= 5 {
+                println!("--- NOT OK {}\n{}\n=> {}", i, code, &outcome[..outcome.len().min(300)]);
+            }
+        }
+    }
+    println!("programs={} ok={} bad={}", n, ok, bad);
+    println!("tags: {:?}", tags_total);
+    0
+}
+
 /// human-readable rendering of an outcome S-expression (for tests and replay files)
 pub fn pretty_outcome(outcome: &str) -> String {
     use crate::astsexp::Sexp;
